@@ -190,12 +190,9 @@ theorem base_ok (rd : RegionData) (rec : BioRecord) (hwf : wfInput rd rec = true
         obtain ⟨⟨hne, hparts⟩, hok⟩ := hfeat f hf
         have hok := hok hc
         have hrot : f.loc.len ≠ rec.length ∧ oneStrand f.loc = true := by
-          cases hb : bridgesOrigin f.loc with
-          | false => have := hok.2 hb; exact ⟨by omega, this.2⟩
-          | true =>
-            rcases hok.1 hb with htwo | ⟨hlen, hr2⟩
-            · have := twoPart_end _ f.loc htwo hL; omega
-            · exact ⟨hlen, hr2⟩
+          rcases hok with ⟨_, htwo⟩ | h
+          · have := twoPart_end _ f.loc htwo hL; omega
+          · exact h
         obtain ⟨s, hs⟩ := oneStrand_unpack f.loc hrot.2
         obtain ⟨r, hr, _⟩ := offset_rotates_general f.loc (rec.length - rd.start) rec.length s hne hparts hs
           (by omega) (by omega) (by omega) hrot.1
